@@ -663,6 +663,9 @@ func (c *Ctx) RuleIdxParam() *Result {
 		if !scope[load.FnName(fn)] {
 			continue
 		}
+		if strings.Contains(fn.Synthetic, "range-over-func") {
+			continue // the body of `for x := range seq`: its parameter is what the iterator yields, not an argument of the program
+		}
 		for pi, p := range fn.Params {
 			if _, ok := p.Type().Underlying().(*types.Slice); !ok {
 				continue
@@ -1553,7 +1556,7 @@ func (c *Ctx) sccs(set map[*ssa.Function]bool) [][]*ssa.Function {
 		on[v] = true
 		for _, e := range g.Out[v] {
 			w := e.Callee
-			if !set[w] {
+			if !set[w] || e.Kind == "methodset" {
 				continue
 			}
 			if _, seen := index[w]; !seen {
@@ -1578,7 +1581,7 @@ func (c *Ctx) sccs(set map[*ssa.Function]bool) [][]*ssa.Function {
 			}
 			self := false
 			for _, e := range g.Out[v] {
-				if e.Callee == v {
+				if e.Callee == v && e.Kind != "methodset" {
 					self = true
 				}
 			}
